@@ -5,8 +5,8 @@
 From Coq Require Import List NArith Bool String.
 From TG.Gen Require Import GenTokens GenAst GenGrammar.
 From TG.Model Require Import Chars Lexer Prep Tree ParserPrims GInterp AstAccess CoreAst AstToCore CoreParts ShapeChk Pipeline.
-From TG.Model Require Import SymbolMap SymbolWf BridgeToks.
-From TG.Proofs Require Import BridgeProofs BridgeText ShapeSound PipelineProofs BridgeSymbol IdNonEmpty BridgeLinear BridgeNoDup.
+From TG.Model Require Import SymbolMap SymbolWf BridgeToks TreeComplete.
+From TG.Proofs Require Import BridgeProofs BridgeText ShapeSound PipelineProofs BridgeSymbol IdNonEmpty BridgeLinear BridgeNoDup BridgeComplete.
 Import ListNotations.
 Close Scope string_scope.
 Open Scope N_scope.
@@ -105,6 +105,18 @@ Check Bridge_id_tokens_nonempty : forall p entry fuel txt t errs st,
   parse_with fuel p entry txt = ParseOk t errs st ->
   forall lo hi tx, In (S_Id, lo, hi, tx) (leaves t) -> tx <> [] /\ lo < hi.
 Print Assumptions Bridge_id_tokens_nonempty.
+
+(** A locally complete tree IS Core: [tree_complete] (model/TreeComplete.v) is a decidable LOCAL condition - every node has
+    the children the bridge insists on for its kind, Identifier nodes have a token, bits lengths are in 0 .. 2^63-1,
+    BangOperator nodes start with one of the 51 operators.  Contrapositive: every "noncore" refusal is a local defect of
+    some node.  (That an error-free parse is locally complete - up to the bits-length refusal - is the remaining,
+    grammar-level half; the pipeline reports [tree_complete] per file and the self-test checks it on every input.) *)
+Theorem Bridge_complete_is_core : forall file links cs,
+  tree_complete (Node S_SourceFile cs) = true -> exists ss, core_of_tree file links (Node S_SourceFile cs) = Ok ss.
+Proof. exact complete_is_core. Qed.
+Check Bridge_complete_is_core : forall file links cs,
+  tree_complete (Node S_SourceFile cs) = true -> exists ss, core_of_tree file links (Node S_SourceFile cs) = Ok ss.
+Print Assumptions Bridge_complete_is_core.
 
 (** the bridge is LINEAR: the identifier occurrences of the CoreAst of a parsed file have pairwise different ranges
     (every Identifier node is visited at most once; different accessor fields select different children: a check on
